@@ -3,7 +3,14 @@
 Differential monitor: after mjw.forward() on generated constraint scenes, every world's constraint rows (type, object id,
 sub-row) are matched as a multiset with the rows MuJoCo builds (mj_fwdPosition + mj_fwdVelocity) for the same float32
 state; J (dense), pos, margin, D, aref, frictionloss and vel of matched rows are judged with a per-case noise floor
-(MuJoCo re-run on +-2 ulp perturbed inputs); ne/nf/nl/nefc and the contact efc_address blocks are checked exactly.
+(MuJoCo re-run on +-2 ulp perturbed inputs); ne/nf/nl/nefc, the equality|friction|limit|contact grouping, the CSR
+structure and the contact efc_address blocks are checked exactly.
+
+Assembly is isolated from collision detection: MJWarp's contact dist/pos/frame are written over MuJoCo's matched contacts
+and mj_makeConstraint is re-run, so narrow-phase differences (ellipsoids differ by 1e-3..1e-2 between the engines, C04's
+subject) cannot leak into the row comparison; contact parameters (friction, solref, solimp, margins, adhesion) stay MuJoCo's.
+Two directed corner cases (limits active on both sides + zero-Jacobian tendon; connect/weld on a jointless body under the
+sparse Jacobian) are always part of the case list so that the corresponding findings reproduce deterministically.
 """
 
 import mujoco
@@ -23,10 +30,12 @@ RULE = (
 )
 ASSUMPTIONS = [
   "MuJoCo 3.13 C (float64) mj_fwdPosition+mj_fwdVelocity on the same float32-representable state is the reference",
-  "rows are matched as multisets keyed by (type, object id, sub-row); contact ids are translated by matching contacts per "
-  "geom pair and nearest position (<=2e-4); a world whose contact sets differ is not judged on contact rows (C04 owns that)",
+  "rows are matched as multisets keyed by (type, object id, sub-row); contacts are paired per geom pair by nearest position "
+  "(radius 3e-2) and MJWarp's dist/pos/frame are injected into MuJoCo's contact before mj_makeConstraint; a world whose "
+  "contact multisets differ is not judged on contact rows and nefc (C04 owns that)",
   "per-field allowance a*max(1,|ref|) + 50*noise, noise = spread of MuJoCo's own row under +-2ulp input perturbation; "
-  "D additionally gets a/(1-imp) because 1-imp cancels in float32",
+  "D additionally gets a/(1-imp) because 1-imp cancels in float32; counts are judged only if stable under the probe",
+  "worlds whose nefc exceeds njmax (capacity bucket) are skipped: silent truncation is C16's subject",
 ]
 BUDGET = {"quick": 140, "thorough": 1500}
 
@@ -67,6 +76,7 @@ def cases(tier, seed):
   for i in range(n):
     out.append({"id": f"gen{seed}_{i}", "seed": seed * 100000 + i, "mixed": int(i % 4 == 3), "big": 40 if i % 29 == 7 else 0, "weight": 3 if i % 29 == 7 else 1})
   out.append({"id": f"limit2_{seed}", "seed": seed, "directed": "corner_limit_both_sides+zero_jacobian_tendon"})
+  out.append({"id": f"weldbody_{seed}", "seed": seed, "directed": "sparse_connect_weld_on_jointless_body"})
   return out
 
 
@@ -79,6 +89,15 @@ LIMIT2_XML = """<mujoco><option timestep="0.002"/><worldbody>
 <tendon><spatial name="t" limited="true" range="0.3 0.5" margin="0.3"><site site="s0"/><site site="s1"/></spatial>
 <spatial name="tz" frictionloss="0.5"><site site="s0"/><site site="s0b"/></spatial></tendon>
 </mujoco>"""
+
+
+WELDBODY_XML = """<mujoco><option timestep="0.002" jacobian="sparse"/><worldbody>
+<body name="a" pos="0 0 1"><joint type="hinge" axis="0 1 0"/><joint type="hinge" axis="1 0 0"/>
+<geom type="capsule" size="0.03" fromto="0 0 0 0.3 0 0" contype="0" conaffinity="0"/>
+<body name="a_fixed" pos="0.3 0 0"><geom type="box" size="0.05 0.2 0.02" mass="3" contype="0" conaffinity="0"/></body></body>
+<body name="b" pos="0.6 0 1"><joint type="ball"/><geom size="0.05" contype="0" conaffinity="0"/>
+<body name="b_fixed" pos="0 0.2 0"><geom type="capsule" size="0.02 0.2" mass="0.5" contype="0" conaffinity="0"/></body></body>
+</worldbody><equality><connect body1="a_fixed" anchor="0.05 0 0"/><weld body1="b_fixed" body2="a_fixed"/></equality></mujoco>"""
 
 
 def mj_eval(mjm, st, inject=None):
@@ -139,7 +158,7 @@ def run_case(case):
   rng = np.random.default_rng(case["seed"] + 17)
   directed = case.get("directed")
   if directed:
-    xml = LIMIT2_XML
+    xml = LIMIT2_XML if directed.startswith("corner") else WELDBODY_XML
     mjm = mujoco.MjModel.from_xml_string(xml)
     feat = ["directed:" + directed]
   else:
@@ -161,7 +180,7 @@ def run_case(case):
   states = []
   for w in range(nworld):
     st = gen.sample_state(mjm, rng, vel=float(rng.choice([0.0, 0.3, 2.0])) if w else 1.0, quat_scale=(w % 2 == 0))
-    if directed:
+    if directed and directed.startswith("corner"):
       st["qpos"] = (rng.uniform(-0.04, 0.04, size=mjm.nq) * np.array([1.0, 0.4])).astype(np.float32)
     states.append(st)
   # capacity bucket from MuJoCo's own need (bounded set of kernel specialisations)
@@ -320,6 +339,21 @@ def run_case(case):
             if e2 <= 0.1 * err:
               sig = "efc.aref:connect_weld:stale_velocity_fields_on_first_call"
               extra = f"; after a second forward() on the same Data the error drops to {e2:.3g} (make_constraint reads cvel/cdof_dot/subtree_linvel before fwd_velocity refreshed them)"
+        if f == "D" and key[0] == E.T_EQ and m.is_sparse and int(mjm.eq_type[key[1][1]]) in (int(mujoco.mjtEq.mjEQ_CONNECT), int(mujoco.mjtEq.mjEQ_WELD)):
+          # mechanism: the sparse branch overwrites body1/body2 with body_weldid[...] and then reads body_invweight0 of
+          # those weld parents. D ~ 1/invweight, so D_mjwarp/D_mujoco must equal invweight(body)/invweight(weld parent).
+          e = key[1][1]
+          if int(mjm.eq_objtype[e]) == int(mujoco.mjtObj.mjOBJ_SITE):
+            b1, b2 = int(mjm.site_bodyid[mjm.eq_obj1id[e]]), int(mjm.site_bodyid[mjm.eq_obj2id[e]])
+          else:
+            b1, b2 = int(mjm.eq_obj1id[e]), int(mjm.eq_obj2id[e])
+          w1, w2 = int(mjm.body_weldid[b1]), int(mjm.body_weldid[b2])
+          comp = 1 if (int(mjm.eq_type[e]) == int(mujoco.mjtEq.mjEQ_WELD) and key[2] >= 3) else 0
+          iw_own = mjm.body_invweight0[b1, comp] + mjm.body_invweight0[b2, comp]
+          iw_weld = mjm.body_invweight0[w1, comp] + mjm.body_invweight0[w2, comp]
+          if (w1, w2) != (b1, b2) and iw_weld > 0 and abs(float(rows["D"][i]) / float(ref["D"][j]) - iw_own / iw_weld) <= 1e-3 * (iw_own / iw_weld):
+            sig = "efc.D:connect_weld:sparse_path_uses_invweight0_of_weld_parent"
+            extra = f"; D ratio {float(rows['D'][i]) / float(ref['D'][j]):.5g} equals invweight0(bodies {b1},{b2})/invweight0(body_weldid {w1},{w2}) = {iw_own / iw_weld:.5g}"
         im = [float(con["includemargin"][li]) for li in csel if int(con["slot"][li]) == int(rows["id"][i])]
         if (
           f in ("pos", "margin")
